@@ -19,7 +19,7 @@ MC_BaseCalls == <<
 MC_AllNames == {<<"s">>, <<"t">>, <<"x", 0>>, <<"x", 1>>, <<"x", 2>>, <<"y", 0>>, <<"y", 1>>, <<"y", 2>>, <<"z", 0>>, <<"z", 1>>}
 MC_En == {"Cmp", "CmpLit", "VBinLit", "SBinLit", "SRBinLit", "SBin", "Fn", "Slice"}
 MC_ScalarLits == {LitS("int", Q(2, 1)), LitS("float", Q(-5, 2)), LitS("bool", Q(1, 1)), LitS("npf64", Q(3, 1)),
-                  LitS("npi64", Q(2, 1)), LitS("npf32", Q(1, 2))}
+                  LitS("npi64", Q(2, 1)), LitS("npf32", Q(1, 2)), LitS("npu8", Q(3, 1)), LitS("npf16", Q(2048, 1))}
 MC_ArrayLits == {Lit("arr", <<Q(1,1), Q(-2,1), Q(3,1)>>, <<3>>), Lit("arr", <<Q(4,1), Q(-1,1)>>, <<2>>),
                  Lit("list", <<Q(1,2), Q(2,1), Q(-3,1)>>, <<3>>), Lit("arri", <<Q(2,1), Q(5,1), Q(0,1)>>, <<3>>),
                  Lit("arr", <<Q(1,1), Q(2,1), Q(3,1), Q(4,1), Q(5,1), Q(6,1)>>, <<2, 3>>)}
